@@ -136,7 +136,7 @@ def bounds(tier):
   grids = _grid_specs(tier)
   sg, sv = _state_coords(tier)
   return dict(
-      coordinate_systems=dict(grids=len(grids), grid_families='with_wavenumbers M<=%d x linear|quadratic|cubic, construct(k<=6,n<=6), 4 hand-picked'
+      coordinate_systems=dict(grids=len(grids), grid_families='with_wavenumbers M<=%d x linear|quadratic|cubic, construct(k<=6,n<=6), 6 hand-picked'
                               % (8 if tier == 'quick' else 16), spacings=list(SPACINGS), longitude_offsets=list(OFFSETS),
                               radii=['None(=1)', 2.5, 6.37122e6], layouts=list(LAYOUTS), verticals=len(_vertical_specs(tier)),
                               vertical_families='sigma tenths lattice K<=%s + 2 irregular + equidistant K in {3,6,7,9,11,12}, LayerCoordinates 1..4, pressure subsets of 6 values size<=4'
